@@ -290,6 +290,12 @@ Theorem C08_source_padding_att_in : forall att pad sl, (g_pad_att att pad sl == 
 Proof. exact gen_pad_att. Qed.
 Print Assumptions C08_source_padding_att_in.
 
+(* spans: two neighbours x -> y are joined (no break) iff the source's backward walk from y steps on x and its forward walk
+   from x steps on y: any succession of Fiber and Fused with at least one Fused in each pair *)
+Theorem C08_source_span_walks : forall x y, g_prev_link x y = negb (brk x y) /\ g_next_link y x = negb (brk x y).
+Proof. exact gen_span_link. Qed.
+Print Assumptions C08_source_span_walks.
+
 (* non-vacuity: the generated functions on the example line (ROADM A -> f1 ... f4 -> ROADM B) and on a 200 km fibre *)
 Example C08_ex_source_split : g_calc_len (qz 200000) (g_min_length w_cfg) (c_max w_cfg) (g_target_length w_cfg)
                               = Ok ((qz 200000 / qz 2)%Q, 2) /\ g_split_uid "f1" 0 2 = "f1_(1/2)"%string.
